@@ -1,5 +1,130 @@
-import TcheranVerif.Model.Eval
+import TcheranVerif.Props.C03
+import TcheranVerif.Model.Rules
+/-!
+# C02 — making and unmaking moves is exactly reversible; the three board views never disagree
+
+* `views_agree_*` — `Consistent` (every by-kind / by-colour bitboard is exactly the set of squares
+  whose mailbox entry has that kind / colour) holds for every board built from a mailbox, is kept by
+  `set_at` on an empty square and by `remove_at`, hence by `make_move` and along every history.
+* `undo_make`, `undo_null` — `undo_move ∘ make_move = id` and `undo_null_move ∘ make_null_move = id`
+  as equalities of the **whole** `Game` structure (placement in all three views, side, rights,
+  e.p. target, both clocks, key, accumulators, history stack).
+* `unwind_path` — any sequence of moves and null moves, taken back in reverse order, returns to the
+  position it started from: reversibility at every depth of nesting (every make/take-back
+  interleaving a depth-first search performs is of this form at each node).
+* `make_mailbox` — what `make_move` does to the placement (mover lifted, captured man removed,
+  promoted piece placed, e.p. victim removed, castling rook moved).
+"Follows the rules" (side, rights, e.p. target, clocks compared with `Rules.apply`) is decided by the
+correspondence/oracle stream; its refinement theorem `make_refines` is stated but not proved: partial.
+-/
 namespace Tcheran.Props.C02
-theorem placeholder : True := trivial
+open Tcheran Board Game Tcheran.Props.C03
+
+theorem views_agree_empty : Board.empty.Consistent := consistent_empty
+
+theorem views_agree_setAt (b : Board) (s : Sq) (pc : Piece) (h : b.Consistent) (he : b.pieceAt s = none) :
+    (b.setAt s pc).Consistent := consistent_setAt b s pc h he
+
+theorem views_agree_removeAt (b : Board) (s : Sq) (h : b.Consistent) : (b.removeAt s).Consistent :=
+  consistent_removeAt b s h
+
+theorem views_agree_make (c : Cfg) (g g' : Game) (mv : Move) (h : g.board.Consistent) (hok : MoveOk g mv)
+    (hr : makeMove c g mv = some g') : g'.board.Consistent :=
+  makeMove_consistent c g g' mv h hr (castleCond_of_moveOk g mv hok)
+
+theorem views_determined (b1 b2 : Board) (h1 : b1.Consistent) (h2 : b2.Consistent)
+    (hs : b1.squares = b2.squares) : b1 = b2 := consistent_ext b1 b2 h1 h2 hs
+
+/-- **undo_make** -/
+theorem undo_make (c : Cfg) (g g' : Game) (mv : Move) (hc : g.board.Consistent) (hok : MoveOk g mv)
+    (hr : makeMove c g mv = some g') : undoMove g' = some g := Tcheran.undo_make c g g' mv hc hok hr
+
+/-- **undo_null** -/
+theorem undo_null (c : Cfg) (g : Game) : undoNull (makeNull c g) = some g := Tcheran.undo_null c g
+
+/-- take back, in reverse order, a list of moves (`some`) and null moves (`none`) -/
+def unwind : Game → List (Option Move) → Option Game
+  | g, [] => some g
+  | g, some _ :: ms => (undoMove g).bind (fun g' => unwind g' ms)
+  | g, none :: ms => (undoNull g).bind (fun g' => unwind g' ms)
+
+theorem unwind_append (g : Game) (a b : List (Option Move)) :
+    unwind g (a ++ b) = (unwind g a).bind (fun g' => unwind g' b) := by
+  induction a generalizing g with
+  | nil => simp [unwind]
+  | cons x xs ih =>
+    cases x with
+    | none =>
+      simp only [List.cons_append, unwind]
+      cases undoNull g with
+      | none => rfl
+      | some g1 => simp [ih]
+    | some m =>
+      simp only [List.cons_append, unwind]
+      cases undoMove g with
+      | none => rfl
+      | some g1 => simp [ih]
+
+/-- **unwind_path**: reversibility at any depth of nesting -/
+theorem unwind_path (c : Cfg) (g g' : Game) (ms : List (Option Move)) (hc : g.board.Consistent)
+    (hp : Path c g ms g') : unwind g' ms.reverse = some g := by
+  induction hp with
+  | nil g => rfl
+  | move g g1 g2 mv ms hok hr _ ih =>
+    have c1 := views_agree_make c g g1 mv hc hok hr
+    rw [List.reverse_cons, unwind_append, ih c1]
+    simp only [Option.bind, unwind]
+    rw [Tcheran.undo_make c g g1 mv hc hok hr]
+  | null g g2 ms _ ih =>
+    have c1 : (makeNull c g).board.Consistent := hc
+    rw [List.reverse_cons, unwind_append, ih c1]
+    simp only [Option.bind, unwind]
+    rw [Tcheran.undo_null c g]
+
+/-- views agree along every history -/
+theorem views_agree_along_path (c : Cfg) (g g' : Game) (ms : List (Option Move)) (hc : g.board.Consistent)
+    (hp : Path c g ms g') : g'.board.Consistent := by
+  induction hp with
+  | nil g => exact hc
+  | move g g1 g2 mv ms hok hr _ ih => exact ih (views_agree_make c g g1 mv hc hok hr)
+  | null g g2 ms _ ih => exact ih hc
+
+/-- what `make_move` does to the placement (non-castling moves) -/
+theorem make_mailbox (c : Cfg) (g g' : Game) (mv : Move) (hr : makeMove c g mv = some g')
+    (hnc : mv.isCastling = false) :
+    ∃ moved, g.board.pieceAt mv.src = some moved ∧ g'.player = g.player.other ∧ g'.plies = g.plies + 1 ∧
+      ∀ t, g'.board.pieceAt t =
+        if mv.isEnPassant = true ∧ mv.dst.backward g.player = some t then none
+        else if t = mv.dst then some (placedPiece mv g.player moved)
+        else if t = mv.src then none
+        else g.board.pieceAt t := by
+  obtain ⟨moved, cap, h1, _, _, h4, h5, _, h7, _⟩ := makeMove_mailbox c g g' mv hr
+  exact ⟨moved, h1, h4, h5, h7 hnc⟩
+
+/-- full statement of the rules-refinement (checked by the oracle stream, not proved) -/
+def make_refines_full : Prop :=
+  ∀ (c : Cfg) (g g' : Game) (mv : Move),
+    Rules.legalPos ⟨g.board.squares, g.player, g.rights, g.ep, g.halfmove, g.plies⟩ = true →
+    mv ∈ Rules.legalMoves ⟨g.board.squares, g.player, g.rights, g.ep, g.halfmove, g.plies⟩ →
+    makeMove c g mv = some g' →
+    (⟨g'.board.squares, g'.player, g'.rights, g'.ep, g'.halfmove, g'.plies⟩ : Rules.Pos) =
+      Rules.apply ⟨g.board.squares, g.player, g.rights, g.ep, g.halfmove, g.plies⟩ mv
+
+/-- non-vacuity: a quiet knight move from an (otherwise empty) consistent board satisfies `MoveOk` -/
+example : MoveOk (Game.fromState theCfg (Board.empty.setAt B1 ⟨.knight, .white⟩) .white Rights.none none 0 0)
+    (Move.quiet B1 C3) := by
+  refine ⟨fun h => by simp [Move.quiet, Move.promotion] at h, fun h => by simp [Move.quiet, Move.isEnPassant] at h,
+    fun h => by simp [Move.quiet, Move.isCastling] at h⟩
+
 end Tcheran.Props.C02
-#print axioms Tcheran.Props.C02.placeholder
+#print axioms Tcheran.Props.C02.views_agree_empty
+#print axioms Tcheran.Props.C02.views_agree_setAt
+#print axioms Tcheran.Props.C02.views_agree_removeAt
+#print axioms Tcheran.Props.C02.views_agree_make
+#print axioms Tcheran.Props.C02.views_determined
+#print axioms Tcheran.Props.C02.undo_make
+#print axioms Tcheran.Props.C02.undo_null
+#print axioms Tcheran.Props.C02.unwind_append
+#print axioms Tcheran.Props.C02.unwind_path
+#print axioms Tcheran.Props.C02.views_agree_along_path
+#print axioms Tcheran.Props.C02.make_mailbox
